@@ -47,6 +47,11 @@ Definition run_512 (g : list Z) : io :=
 Definition run_513 (g : list Z) : io := [1 :: int_text (nthz g 0)].
 Definition run_514 (g : list Z) : io := match text_int g with None => [[0]] | Some z => [[1; z]] end.
 
+(* 515: [neg; exponent] | digit codes -> [[1; codes of format_float]] ; 516: codes -> [[0]] | [[1; neg; exponent]; digit codes] *)
+Definition run_515 (h ds : list Z) : io := [1 :: format_float (zb (nthz h 0), ds, nthz h 1)].
+Definition run_516 (g : list Z) : io :=
+  match dec_parse g with None => [[0]] | Some (neg, ds, e) => [[1; bz neg; e]; ds] end.
+
 (* ---- matrices and statements as groups ----
    matrix:     [10; name] ECU | [11; name] value table, [12; key; label] its rows |
                [20; id; ext; size] frame, [21; name], [22; transmitter]* |
@@ -162,6 +167,8 @@ Definition run_c05 (cmd : Z) (a : io) : io :=
   | 512, [g] => run_512 g
   | 513, [g] => run_513 g
   | 514, [g] => run_514 g
+  | 515, [h; ds] => run_515 h ds
+  | 516, [g] => run_516 g
   | 520, _ => run_520 a
   | 521, _ => run_521 a
   | _, _ => [[-999]]
